@@ -216,6 +216,19 @@ func apply(resp *restful.Response, o Op) error {
 		resp.PrettyPrint(o.B)
 	case "acc":
 		resp.SetRequestAccepts(o.Mime)
+	case "hd":
+		switch o.Via {
+		case "add":
+			resp.Header().Add(o.HName, o.HValue)
+		case "addheader":
+			resp.AddHeader(o.HName, o.HValue)
+		case "raw":
+			resp.Header()[o.HName] = []string{o.HValue}
+		case "del":
+			resp.Header().Del(o.HName)
+		default:
+			resp.Header().Set(o.HName, o.HValue)
+		}
 	case "wh":
 		resp.WriteHeader(o.Status)
 	case "w":
